@@ -8,7 +8,7 @@ Emboss/Spec/View.lean; lemmas: Emboss/Lemmas/{ExprMono,ViewMono,ViewMono2,Synth}
 -/
 import Emboss.Lemmas.ViewMono2
 import Emboss.Lemmas.Synth
-import Emboss.Lemmas.OkMono
+import Emboss.Lemmas.OkMonoArr
 namespace Emboss.View
 open Emboss.ViewSpec
 
@@ -80,6 +80,40 @@ theorem C01_ok_monotone_partial (m : Module) (hm : moduleWF m = true) (hna : mod
     (G m n).okAt (rootView sd ps b) p = true → (G m n).okAt (rootView sd ps (b ++ c)) p = true :=
   G_ok_mono hm hna n (rootView sd ps b) (rootView sd ps (b ++ c)) (rootView_le sd ps b c) hsd hsn p
 
+/-
+`Ok()` with arrays.  `SizeCovers m sd` (Emboss/Lemmas/OkMonoArr.lean) is the semantic statement
+"whenever a view of `sd` knows its size, every present physical field with a known non-negative
+location ends at or before it" — true of the synthesized size expression
+(`C01_sizeCovers_of_plain`, via `C01_size_covers_present_fields`); for the *real* IR the size
+expression additionally carries the compiler's constant-folding annotations, whose soundness is
+C05's subject, hence a hypothesis here (partial).
+Under it: a structure that is Ok on `b` is Ok on `b ++ c`, arrays, arrays of structures, nested
+structures and aliases into them included; and every present field of a complete view gets
+*identical* storage on both buffers (so array element counts and elements are the same).
+-/
+theorem C01_ok_monotone_arrays_partial (m : Module) (hm : moduleWF m = true) (sd : StructDef)
+    (hsd : structWF m sd = true) (hcov : SizeCovers m sd) (ps : List Val) (b c : List Nat) (n : Nat) :
+    (G m n).okAt (rootView sd ps b) [] = true → (G m n).okAt (rootView sd ps (b ++ c)) [] = true :=
+  G_ok_mono_arr hm (w1 := rootView sd ps b) hcov (rootView_le sd ps b c) hsd n
+
+theorem C01_complete_fields_identical_partial (m : Module) (hm : moduleWF m = true) (sd : StructDef)
+    (hsd : structWF m sd = true) (hcov : SizeCovers m sd) (ps : List Val) (b c : List Nat)
+    (K : Nat) (sz : Int)
+    (hsz : (G m (K + 1)).read (rootView sd ps b) [sd.sizeField] = some (.int sz))
+    (hlen : (b.length : Int) ≥ sz)
+    (k : Nat) (hk : k ≤ K) (x : String) (f : Field) (start size : Expr) (ty : PType) (bo : ByteOrder)
+    (hf : sd.field x = some f) (hkind : f.kind = .phys start size ty bo) (st : Storage)
+    (h1 : physStorage (G m k) (rootView sd ps b) f start size = some st) :
+    physStorage (G m k) (rootView sd ps (b ++ c)) f start size = some st :=
+  physStorage_tight hm (w1 := rootView sd ps b) hcov (rootView_le sd ps b c) hsd K sz hsz rfl hlen k hk
+    hf hkind h1
+
+/-- The hypothesis `SizeCovers` holds whenever the size field is the un-folded synthesized
+expression. -/
+theorem C01_sizeCovers_of_plain (m : Module) (hm : moduleWF m = true) (sd : StructDef)
+    (hwf : structWF m sd = true) (hp : plainSize sd) : SizeCovers m sd :=
+  sizeCovers_of_plain hm hwf hp
+
 /-- More fuel never changes an answer that was already known (so the fuel the driver uses is
 immaterial once `fuelOK` holds). -/
 theorem C01_fuel_monotone (m : Module) (hm : moduleWF m = true) (w : SView)
@@ -103,16 +137,8 @@ inside `[0, r)`: `IsComplete()` (buffer length ≥ `r`) means no present field w
 fact behind "an Ok view of size n depends only on its first n bytes". -/
 theorem C01_size_covers_present_fields (env : Env) (fs : List Field) (r : Int)
     (h : eval env (synthSize fs) = some (.int r)) :
-    0 ≤ r ∧ ∀ s z : Int, (some true, some s, some z) ∈ extents env fs → s + z ≤ r := by
-  rw [eval_synthSize] at h
-  cases hs : ViewSpec.size (extents env fs) with
-  | none => rw [hs] at h; cases h
-  | some r' =>
-    rw [hs] at h
-    have hr : r' = r := by simpa using h
-    subst hr
-    unfold ViewSpec.size at hs
-    exact ⟨sizeFrom_ge _ _ _ hs, sizeFrom_covers _ _ _ hs⟩
+    0 ≤ r ∧ ∀ s z : Int, (some true, some s, some z) ∈ extents env fs → s + z ≤ r :=
+  C01_size_covers_present_fields_aux env fs r h
 
 /-- `$next` is the end of the previous physical field. -/
 theorem C01_next_is_prev_end (env : Env) (prevStart prevSize : Expr) (s z : Int)
@@ -172,6 +198,17 @@ example :
     sizeOf? (G exM 6) (rootView exSd [] [1]) = some 4 ∧
     isComplete (G exM 6) (rootView exSd [] [1, 5, 0]) = false ∧
     isComplete (G exM 6) (rootView exSd [] [1, 5, 0, 9]) = true := by
+  decide
+
+/-- non-vacuity of `C01_ok_monotone_arrays_partial`: the example (which has a dynamically sized
+array) satisfies `SizeCovers`, is Ok on `01 05 00 09` and stays Ok with more bytes. -/
+example : SizeCovers exM exSd :=
+  C01_sizeCovers_of_plain exM (by decide) exSd (by decide) ⟨_, rfl, rfl⟩
+
+example :
+    (G exM 6).okAt (rootView exSd [] [1, 5, 0]) [] = false ∧
+    (G exM 6).okAt (rootView exSd [] [1, 5, 0, 9]) [] = true ∧
+    (G exM 6).okAt (rootView exSd [] ([1, 5, 0, 9] ++ [7, 7])) [] = true := by
   decide
 
 /-- non-vacuity of `C01_ok_monotone_partial`: the example without its array is inside the
